@@ -619,6 +619,23 @@ func (g *PageGen) unlikely(depth int) string {
 	if g.SafeMarkers {
 		tag = g.R.Pick("div", "div", "section", "aside", "ul")
 	}
+	if g.SafeMarkers && g.R.Chance(22) {
+		// a marked inline element between the words of one paragraph (a share counter, a comment
+		// bubble): skipping it must be the same as its absence — no block boundary in its place
+		w1, w2, in := g.words(g.R.Range(12, 40)), g.words(g.R.Range(12, 40)), g.words(g.R.Range(0, 4))
+		itag := g.R.Pick("span", "span", "b", "small", "button")
+		attr, neutral := `class="`+w+`"`, `class="zzneutral"`
+		if how == 0 {
+			attr, neutral = `id="`+w+`"`, `id="zzneutral"`
+		}
+		switch g.MarkMode {
+		case 1:
+			return "<p>" + w1 + "  " + w2 + "</p>\n"
+		case 2:
+			return "<p>" + w1 + " <" + itag + " " + neutral + ">" + in + "</" + itag + "> " + w2 + "</p>\n"
+		}
+		return "<p>" + w1 + " <" + itag + " " + attr + ">" + in + "</" + itag + "> " + w2 + "</p>\n"
+	}
 	inner := g.blocks(g.R.Range(1, 3), depth+1)
 	inTable := g.SafeMarkers && how == 1 && g.R.Chance(35)
 	if inTable {
